@@ -64,6 +64,9 @@ def griffe_frames(exc: BaseException, limit: int = 3) -> list[str]:
 
 
 def failure(inv: str, msg: str, exc: BaseException | None = None, tags=(), where=None) -> dict:
+    if where is None and isinstance(exc, RecursionError):
+        # where exactly the stack overflows depends on the depth the operation started from: name the cycle instead
+        where = sorted(set(griffe_frames(exc, limit=60)))[:6]
     f = {
         "inv": inv,
         "exc": type(exc).__name__ if exc is not None else None,
@@ -179,9 +182,20 @@ def generate(prop, seed: int, opts: dict | None = None) -> dict:
     return plan
 
 
+def quiet_logs():
+    """Griffe logs expected load failures with logger.exception(); keep stderr for the simulator."""
+    import logging
+
+    lg = logging.getLogger("griffe")
+    lg.handlers[:] = [logging.NullHandler()]
+    lg.propagate = False
+    lg.setLevel(logging.CRITICAL + 10)
+
+
 def _worker_init():
     faulthandler.enable()
     sys.setrecursionlimit(1000)
+    quiet_logs()
 
 
 def _work(prop_id: str, seeds: list[int], opts: dict) -> dict:
